@@ -41,6 +41,8 @@ Definition labels_of (K : nat) (P : MatT) (i : nat) : nat := argmax_row o K (P i
 
 (* fit:            self.labels_ = self._infer(X).argmax(1) *)
 Definition fit_labels (K : nat) (p : params) (Xtrain : MatT) : nat -> nat := labels_of K (infer K p Xtrain).
+(* fit_predict:    return self.fit(X, y).labels_ *)
+Definition fit_predict (K : nat) (p : params) (Xtrain : MatT) : nat -> nat := fit_labels K p Xtrain.
 (* predict_proba:  y_pred = self._infer(X, retain=False); return y_pred
    (KernelRIM.predict_proba: self._infer(self._compute_kernel(X)) — X below is then the kernel rows) *)
 Definition predict_proba (K : nat) (p : params) (X : MatT) : MatT := infer K p X.
@@ -60,7 +62,9 @@ Definition n_iter (max_iter : nat) : nat := max_iter.
 Inductive optimiser := SGDOptimizer | AdamOptimizer.
 Definition optimiser_of (solver : string) : optimiser :=
   if String.eqb solver "sgd" then SGDOptimizer else AdamOptimizer.
+(* ... both built from the same weights with learning_rate = self.learning_rate *)
+Definition optimiser_init (solver : string) (lr : T) : optimiser * T := (optimiser_of solver, lr).
 (* _parameter_constraints["solver"] = [StrOptions({"sgd", "adam"})] *)
 Definition solver_accepted (solver : string) : bool := String.eqb solver "sgd" || String.eqb solver "adam".
 End Coherence.
-(* EXTRACT: params infer labels_of fit_labels predict_proba predict score epochs_run n_iter optimiser optimiser_of solver_accepted *)
+(* EXTRACT: params infer labels_of fit_labels fit_predict predict_proba predict score epochs_run n_iter optimiser optimiser_of solver_accepted *)
